@@ -7,6 +7,7 @@ import EraVerif.Model.AddrBook
 * `{"op":"announce","reset":bool?,"k":key,"a":addr,"s":secs,"n":nanos}`
 
 * `{"op":"stash"}` / `{"op":"converge"}`: remember / compare the book and the set of seen announcements
+* `{"op":"contended","calls":[update|announce…],"poll":[…]}`: overlapping calls = the calls applied atomically in listed order
 * `{"op":"seq","reset":bool?,"ops":[…]}`: a whole case as one line (replay files)
 
 Observation: `class` (`ok` / `dup` / `badsig` / `announce` / `stash` / `converge`), `ok`, `notified`, `wrap` (announce only: the `u64`
@@ -97,6 +98,22 @@ def handleOne (st0 : St) (j : Json) : St × Json :=
                        ("equal", Json.bool false), ("book", bookJ b)])
   | _ => (st, badOp)
 
+/-- `{"op":"contended","calls":[…],"poll":[…]}`: overlapping `update`/`announce` calls. They serialise on the watch's
+sender lock, which is a fair FIFO mutex: the model applies them atomically in queue (= listed) order; the order in
+which the futures are polled afterwards (`poll`) has no influence. -/
+def handleContended (st0 : St) (j : Json) : St × Json :=
+  let st := if getBool j "reset" == some true then { st0 with book := [], seen := [] } else st0
+  let calls := ((getArr j "calls").getD #[]).toList
+  let rec go (st : St) (classes : List Json) (notified : Bool) : List Json → St × List Json × Bool
+    | [] => (st, classes.reverse, notified)
+    | c :: cs =>
+      let (st', obs) := handleOne st (c.setObjVal! "reset" (Json.bool false))
+      let cls := (getObj obs "class").getD (Json.str "bad_op")
+      go st' (cls :: classes) (notified || getBool obs "notified" == some true) cs
+  let (st', classes, notified) := go st [] false calls
+  (st', Json.mkObj [("class", Json.str "contended"), ("ok", Json.bool true), ("results", Json.arr classes.toArray),
+                    ("notified", Json.bool notified), ("book", bookJ st'.book)])
+
 /-- `{"op":"seq","reset":b,"ops":[…]}` = a whole case as one line (replay files): the observation of its last op -/
 def handle (st : St) (j : Json) : St × Json :=
   if getStr j "op" == some "seq" then
@@ -106,9 +123,10 @@ def handle (st : St) (j : Json) : St × Json :=
       | [] => (st, last)
       | o :: os =>
         let o := if first && reset then o.setObjVal! "reset" (Json.bool true) else o
-        let (st', obs) := handleOne st o
+        let (st', obs) := if getStr o "op" == some "contended" then handleContended st o else handleOne st o
         go st' false obs os
     go st true badOp ops
+  else if getStr j "op" == some "contended" then handleContended st j
   else handleOne st j
 
 end Driver.C18
